@@ -286,7 +286,7 @@ EXTRA12 = {
     "C12": ("content mechanism: R-TABLE a copy of an ItemContent keeps its kind", "Also decides the kind of the content redo re-creates."),
     "C14": ("R-SIB serde width of ClientID (writer and reader use the same scalar impl)", "Also decides that the JSON form of an id reads the width it writes."),
     "C15": ("R-GUARD Hook::get answers Some only for a root type or a live item", "Also decides what a logical reference to a deleted collection resolves to."),
-    "C16": ("R-GUARD interning cache written only after a failed lookup", "Also decides that a cached attribute handle is never displaced."),
+    "C16": ("R-GUARD interning cache written only after a failed lookup; R-SIB serde writer and visitors of IdSet use the same lib0 version", "Also decides that a cached attribute handle is never displaced and that the serde form of an IdSet is read as written."),
     "C17": ("R-PROV C length readers reach the length method of their type", "Also decides which length the C readers answer."),
     "C19": ("R-ORDER the hand-back field of an undo observer is read after the callback; R-PROV positional / keyed C wrappers hand the caller's own index, length, key and payload on (25-entry delegation table)", "Also decides that metadata assigned in a C undo observer is kept and that the positional wrappers pass their operands through."),
     "C20": ("R-PROV C quote wrappers hand the four boundary parameters on; R-GUARD ExplicitRange bounds", "Also decides the boundaries of quotations created through the C API."),
